@@ -63,9 +63,15 @@ class Ctx:
         return quick if self.quick else thorough
 
     # ---------------------------------------------------------------- proof
-    def check_proofs(self) -> bool:
-        """Full build + re-check of Props/<prop>.v + forbidden-token scan."""
-        ok, log = coqrun.build()
+    def check_proofs(self, extra_targets: list[str] | None = None) -> bool:
+        """Build Props/<prop>.v, the checker files named in `extra_targets`
+        (e.g. ['Wire/SeqSetCheck']) and everything they depend on; re-check
+        Props/<prop>.v with Print Assumptions; forbidden-token scan."""
+        targets = [f'theories/Props/{self.prop}'] + \
+            [f'theories/{t}' for t in (extra_targets or [])]
+        if os.environ.get('VERIF_FULL_BUILD') == '1':
+            targets = None
+        ok, log = coqrun.build(targets=targets)
         hits = coqrun.forbidden_scan()
         if hits:
             self.broken.append('forbidden tokens in the development: ' + '; '.join(hits[:10]))
